@@ -51,12 +51,18 @@ def mustBeLocked : List (String × String × String) :=
    ("wallet.walletSessionManager", "closeSession", "gstore.Remove"),
    ("batchedstore.store", "Put", "underlyingStore.Batch"), ("batchedstore.store", "Delete", "underlyingStore.Batch"),
    ("batchedstore.store", "Flush", "underlyingStore.Batch"),
-   ("formattedstore.FormattedProvider", "OpenStore", "provider.OpenStore")]
+   ("formattedstore.FormattedProvider", "OpenStore", "provider.OpenStore"),
+   -- the batch leaves the inbox only if it was delivered: take, send and put back are one critical section
+   ("messagepickup.Service", "handleBatchPickup", "outbound.SendToDID")]
 
 def lockedCall (r : String × String × String) : Bool :=
   let rows := Generated.calls.filter fun a => a.typ == r.1 && a.method == r.2.1 && a.field == r.2.2
   !rows.isEmpty && rows.all (·.writeLock)
 
 theorem multi_step_in_one_section : mustBeLocked.all lockedCall = true := by decide +kernel
+
+/-- sync.Mutex / RWMutex are not reentrant: no path of a method takes a lock it already holds (Lock under Lock or RLock
+    blocks for ever, RLock under RLock blocks as soon as a writer queues in between) -/
+theorem no_recursive_lock : Generated.relocks = [] := by decide +kernel
 
 end C13
